@@ -1,7 +1,88 @@
-"""Thorough tier: replay stored breaking patches (seeded/ and mutants/) and benign variants against
-scratch copies of the *current* /repo; the property's rules must fire on the former and stay silent on the latter.
-Filled in later."""
+"""Replay of breaking patches (seeded/ = written by independent sub-agents, mutants/ = my own) and of
+behaviour-preserving variants (benign/) against scratch copies of the *current* /repo.
+
+A scratch copy lives under /tmp, outside /repo and /verif, and is removed straight after use.
+Used by the thorough tier (kill matrix in the evidence) and by bin/mutcheck during development."""
+import glob
+import json
+import os
+import shutil
+import subprocess
+import tempfile
+
+from . import extract
+
+VERIF = extract.VERIF
+
+
+def make_scratch(patch):
+    d = tempfile.mkdtemp(prefix="zr-mut-", dir="/tmp")
+    src = extract.REPO.rstrip("/") + "/"
+    p = subprocess.run(["rsync", "-a", "--exclude", "target", "--exclude", ".git", src, d + "/"], capture_output=True, text=True)
+    if p.returncode != 0:
+        shutil.rmtree(d, ignore_errors=True)
+        raise RuntimeError("rsync failed: " + p.stderr)
+    p = subprocess.run(["git", "apply", "--unsafe-paths", "--directory", d, os.path.abspath(patch)], cwd="/", capture_output=True, text=True)
+    if p.returncode != 0:
+        p = subprocess.run(["patch", "-p1", "-s", "-i", os.path.abspath(patch)], cwd=d, capture_output=True, text=True)
+        if p.returncode != 0:
+            shutil.rmtree(d, ignore_errors=True)
+            return None
+    return d
+
+
+def run_on_patch(patch, props, tier="quick"):
+    """Apply `patch` to a scratch copy and run the listed properties' rules there. -> {prop: [violation keys]} or {"error": ...}"""
+    from . import check
+    d = make_scratch(patch)
+    if d is None:
+        return {"error": "patch does not apply to the current tree"}
+    old = extract.REPO
+    out = {}
+    try:
+        extract.REPO = d
+        for prop in props:
+            try:
+                total, viols, lines = check.run_property(prop, tier, write=False)
+                out[prop] = sorted({o.key for o in viols})
+            except extract.InfraError as e:
+                out[prop] = ["INFRA: " + str(e)[:300]]
+                break
+    finally:
+        extract.REPO = old
+        shutil.rmtree(d, ignore_errors=True)
+    return out
+
+
+def corpus(prop):
+    """(kind, id, patch) for every stored patch that names this property."""
+    items = []
+    for kind, root in (("seeded", "seeded"), ("mutant", "mutants"), ("benign", "benign")):
+        for meta in sorted(glob.glob(os.path.join(VERIF, root, "*", "meta.json"))):
+            m = json.load(open(meta))
+            props = m.get("properties") or [m.get("property")]
+            if prop in props:
+                patch = os.path.join(os.path.dirname(meta), "patch.diff")
+                if os.path.exists(patch):
+                    items.append((kind, os.path.basename(os.path.dirname(meta)), patch))
+    return items
 
 
 def replay(prop, mod):
-    return {}
+    """Thorough tier: kill matrix for this property. Never changes the verdict on /repo itself."""
+    rows = []
+    for kind, mid, patch in corpus(prop):
+        r = run_on_patch(patch, [prop])
+        if "error" in r:
+            rows.append({"id": mid, "kind": kind, "result": "skipped: " + r["error"]})
+            continue
+        keys = r.get(prop, [])
+        if kind == "benign":
+            rows.append({"id": mid, "kind": kind, "result": "silent" if not keys else "FALSE-ALARM", "keys": keys})
+        else:
+            rows.append({"id": mid, "kind": kind, "result": "detected" if keys else "MISSED", "keys": keys[:6]})
+    return {"mutation_replay": rows,
+            "mutants_detected": len([r for r in rows if r["result"] == "detected"]),
+            "mutants_missed": len([r for r in rows if r["result"] == "MISSED"]),
+            "benign_silent": len([r for r in rows if r["result"] == "silent"]),
+            "benign_false_alarms": len([r for r in rows if r["result"] == "FALSE-ALARM"])}
